@@ -193,4 +193,52 @@ theorem insertAll_separated (prec hi p : ℝ) (vals : List ℝ) (m : TMap ℝ)
       · simp at he; subst he
         exact (List.pairwise_cons.1 hsep).1 w hw
 
+/-- `insertPairs` (the loop of `insertClass_` calls): one entry per pair, in comparator order, the
+probabilities being those of the pairs -/
+theorem insertPairs_spec (prec hi : ℝ) (hp : 0 ≤ prec) (vps : List (ℝ × ℝ)) (m m' : TMap ℝ)
+    (hs : TMap.Sorted prec m) (h : insertPairs prec hi m vps = some m') :
+    TMap.Sorted prec m' ∧ m'.length = m.length + vps.length ∧
+      (TMap.vals m').Perm (TMap.vals m ++ vps.map (·.2)) := by
+  induction vps generalizing m with
+  | nil => simp [insertPairs] at h; subst h; exact ⟨hs, by simp, by simp⟩
+  | cons vp rest ih =>
+    simp only [insertPairs] at h
+    cases h1 : insertDistinct prec hi vp.2 m vp.1 with
+    | none => simp [h1] at h
+    | some m1 =>
+      simp only [h1, Option.bind_some] at h
+      obtain ⟨c, hc, rfl⟩ := insertDistinct_spec prec hi vp.2 m m1 vp.1 h1
+      have hs1 := TMap.sorted_assign_not_found prec c vp.2 hp m hs hc
+      obtain ⟨a, b, d⟩ := ih _ hs1 h
+      have hperm := (TMap.assign_not_found prec c vp.2 m hc).2
+      refine ⟨a, ?_, ?_⟩
+      · rw [b, (TMap.assign_not_found prec c vp.2 m hc).1]; simp; omega
+      · refine d.trans ?_
+        have hv : (TMap.vals (TMap.assign prec c vp.2 m)).Perm (vp.2 :: TMap.vals m) := by
+          unfold TMap.vals
+          simpa using hperm.map (·.2)
+        simp only [List.map_cons]
+        exact (hv.append_right _).trans (by
+          simp only [List.cons_append]
+          exact (List.perm_middle (a := vp.2) (l₁ := TMap.vals m) (l₂ := List.map (·.2) rest)).symm)
+
+/-- pairs whose values are further apart than the precision are stored as they are, in order -/
+theorem insertPairs_separated (prec hi : ℝ) (vps : List (ℝ × ℝ)) (m : TMap ℝ)
+    (hsep : vps.Pairwise (fun a b => a.1 < b.1 - prec)) (hm : ∀ e ∈ m, ∀ v ∈ vps, e.1 < v.1 - prec) :
+    insertPairs prec hi m vps = some (m ++ vps) := by
+  induction vps generalizing m with
+  | nil => simp [insertPairs]
+  | cons v vs ih =>
+    have hall : ∀ e ∈ m, e.1 < v.1 - prec := fun e he => hm e he v (by simp)
+    have hnf := TMap.find?_none_of_all_lt prec v.1 m hall
+    simp only [insertPairs, insertDistinct, hnf, Option.isSome_none, Bool.false_eq_true, if_false, Option.bind_some]
+    rw [TMap.assign_of_all_lt prec v.1 v.2 m hall]
+    rw [ih (m ++ [(v.1, v.2)]) (List.pairwise_cons.1 hsep).2]
+    · simp
+    · intro e he w hw
+      rcases List.mem_append.1 he with he | he
+      · exact hm e he w (by simp [hw])
+      · simp at he; subst he
+        exact (List.pairwise_cons.1 hsep).1 w hw
+
 end Bpp.Discretize
